@@ -829,6 +829,61 @@ theorem signal_der_physical_time (xi : List ℝ) (e : Nat) (c : List ℝ) (tau0 
   rw [hval]
   exact comp
 
+/-! ### under SplineMethod the integrator-chain dynamics hold identically in time
+
+A chain `x_0' = x_1, x_1' = x_2, …` of length `d` is ONE spline of degree `d` (the head) and its iterated derivative splines: member `m`
+has the coefficients `signalDerIter xi T d m c`. Each link of the chain then holds at every time, not only at grid points. -/
+
+/-- the polynomial piece (span of `tau0`) of the degree-`e` spline with coefficients `c`, at normalised time `y` -/
+noncomputable def piece (xi : List ℝ) (e : Nat) (c : List ℝ) (tau0 y : ℝ) : ℝ :=
+  ∑ i ∈ range (nBasis xi e), c.getD i 0 * coxDeBoor (clampedKnots xi e) (spanIdx xi e tau0) y e i
+
+/-- at the time that selects the span, the piece is the executable spline evaluation -/
+theorem piece_eq_splineEval (xi : List ℝ) (e : Nat) (c : List ℝ) (tau0 : ℝ) (hc : c.length = nBasis xi e) :
+    piece xi e c tau0 tau0 = splineEval xi e c tau0 := by
+  rw [splineEval_eq_sum xi e c tau0 hc]; rfl
+
+theorem signalDerIter_length (xi : List ℝ) (T : ℝ) : ∀ (m d : Nat) (c : List ℝ), (signalDerIter xi T d m c).length = c.length - m := by
+  intro m
+  induction m with
+  | zero => intro d c; rfl
+  | succ m ih =>
+    intro d c
+    simp only [signalDerIter]
+    rw [ih]
+    simp only [signalDerCoeffs, bsplineDerivCoeffs, List.length_map, List.length_range]
+    omega
+
+/-- one more derivative at the END of the iteration -/
+theorem signalDerIter_succ_end (xi : List ℝ) (T : ℝ) : ∀ (m d : Nat) (c : List ℝ),
+    signalDerIter xi T d (m + 1) c = signalDerCoeffs xi (d - m) T (signalDerIter xi T d m c) := by
+  intro m
+  induction m with
+  | zero => intro d c; rfl
+  | succ m ih =>
+    intro d c
+    have h1 : signalDerIter xi T d (m + 1 + 1) c = signalDerIter xi T (d - 1) (m + 1) (signalDerCoeffs xi d T c) := rfl
+    have h2 : signalDerIter xi T d (m + 1) c = signalDerIter xi T (d - 1) m (signalDerCoeffs xi d T c) := rfl
+    rw [h1, ih (d - 1) (signalDerCoeffs xi d T c), h2]
+    have : d - 1 - m = d - (m + 1) := by omega
+    rw [this]
+
+/-- **every link of an integrator chain holds identically in time**: member `m+1` of the chain is the time derivative of member `m`, in
+physical time `t = t0 + T·τ`, at every time of every span of every valid grid, for every chain length `d` and every `m < d` -/
+theorem chain_dynamics_hold (xi : List ℝ) (d m : Nat) (hm : m < d) (c : List ℝ) (tau0 t0 T t : ℝ) (hT : T ≠ 0) (hg : GridOK xi)
+    (hlo : xi.getD 0 0 ≤ tau0) (hhi : tau0 ≤ xi.getD (xi.length - 1) 0) (hc : c.length = nBasis xi d) :
+    HasDerivAt (fun s => piece xi (d - m) (signalDerIter xi T d m c) tau0 ((s - t0) / T))
+      (piece xi (d - (m + 1)) (signalDerIter xi T d (m + 1) c) tau0 ((t - t0) / T)) t := by
+  obtain ⟨e, he⟩ : ∃ e, d - m = e + 1 := ⟨d - m - 1, by omega⟩
+  have he' : d - (m + 1) = e := by omega
+  have hlen : (signalDerIter xi T d m c).length = nBasis xi (e + 1) := by
+    rw [signalDerIter_length, hc]
+    unfold nBasis
+    omega
+  have := signal_der_physical_time xi e (signalDerIter xi T d m c) tau0 t0 T t hT hg hlo hhi hlen
+  rw [signalDerIter_succ_end, he, he']
+  exact this
+
 end executable_derivative
 
 section structure_
